@@ -14,8 +14,8 @@ Proof.
   - destruct S as (ext & S1 & S2 & S3 & S4 & S5 & S6 & S7). split; [assumption|].
     eexists; split; [exact S3|]. destruct L as [L0 L1]; destruct La as [A0 A1]. split; [lia|].
     intros n Hn; rewrite S4 in Hn. rewrite blen_np_append, S5, (L1 n Hn), (A1 n (S7 n Hn)); reflexivity.
-  - destruct S as [-> ->]; split; [apply frame_refl | exists E; split; assumption].
-  - destruct S as [-> ->]; split; [apply frame_refl | exists E; split; assumption].
+  - destruct S as [-> [-> _]]; split; [apply frame_refl | exists E; split; assumption].
+  - destruct S as [-> [-> _]]; split; [apply frame_refl | exists E; split; assumption].
 Qed.
 
 (* ------------------------------------------------------------ set_selection *)
